@@ -7,5 +7,5 @@ mkdir -p out evidence
 if [ -f shim/ioshim.c ]; then
   gcc -O2 -fPIC -shared -o shim/ioshim.so shim/ioshim.c -ldl -lpthread
 fi
-(cd harness && cargo build --offline --profile verif)
+(cd harness && cargo build --offline --profile verif && cargo build --offline --profile verif-rel)
 echo "setup ok"
